@@ -119,8 +119,16 @@ pub fn run_case(case: &J, n_threads: usize, n_evals: usize, mode: &str) -> Resul
                 }
                 out
             });
-            a.join().map_err(|_| "thread A panicked")?;
-            results = b.join().map_err(|_| "thread B panicked")?;
+            // (single evaluations are polled under catch_unwind; a thread that still dies - a panic in a destructor while
+            // the future is dropped - is an observation about the code under test, not a tool error)
+            let a_died = a.join().is_err();
+            match b.join() {
+                Ok(r) if !a_died => results = r,
+                _ => {
+                    return Ok(ThreadsResult { evaluations: n_evals, records: Vec::new(),
+                        mismatches: vec![json!({"why": "a thread driving evaluations that move between threads died with a panic that could not be caught", "mode": mode})] });
+                }
+            }
         }
         "hammer" => {
             // n_evals evaluations per thread, back to back, no suspension: only the comparison with the sequential run
